@@ -8,7 +8,7 @@ Open Scope Z_scope.
 
 Inductive opc :=
 | OLap (cotan : bool) | OGraphLap | OCed (inverse : bool) | OLapTri (cotan : bool) | OLapEdges (cotan : bool)
-| OGradRe (flat : bool) | OGradIm (flat : bool) | OGradReal (flat : bool)
+| OGradRe (flat : bool) | OGradIm (flat : bool) | OGradReal (flat : bool) | OGag (flat : bool)
 | OMassV (inverse sqrt : bool) | OMassF (inverse : bool) | OMassE (inverse : bool)
 | OAdjOne | OAdjLen | OAdjCustom (w : list lit) | OV2E (oriented : bool) | OV2F
 | OVolLap | OTetLap | OMassVV (inverse sqrt : bool) | OMassVC (inverse sqrt : bool).
@@ -91,11 +91,12 @@ Definition eval_op (ofl : lit -> T) (cotf : vec T -> vec T -> vec T -> T)
   | OCed inv => ((m, m), cotan_edge_diagonal OP cotf inv V F E)
   | OLapTri true => ((nf, nf), lapt_weighted OP (ced_coeffs OP cotf ced_default_inverse V F E) (dual_pairs F E))
   | OLapTri false => ((nf, nf), lapt_plain OP (dual_pairs F E))
-  | OLapEdges true => ((m, m), laplacian_edges_cotan OP cotf V E F)
-  | OLapEdges false => ((m, m), laplacian_edges_uniform OP E F)
+  | OLapEdges true => (lape_shape m, laplacian_edges_cotan OP cotf V E F)
+  | OLapEdges false => (lape_shape m, laplacian_edges_uniform OP E F)
   | OGradRe fl => (grad_shape nf n, re_part (gradient_complex OP V F (if fl then flat_bases OP V F else conn_bases OP V F)))
   | OGradIm fl => (grad_shape nf n, im_part (gradient_complex OP V F (if fl then flat_bases OP V F else conn_bases OP V F)))
   | OGradReal fl => (grad_shape (grad_real_nrows nf) n, gradient_real OP V F (if fl then flat_bases OP V F else conn_bases OP V F))
+  | OGag fl => ((n, n), gag_re OP V F (if fl then flat_bases OP V F else conn_bases OP V F))
   | OMassV inv sq => ((n, n), mass_vertices OP inv sq n V F)
   | OMassF inv => ((nf, nf), mass_faces OP inv V F)
   | OMassE inv => ((m, m), mass_edges OP inv V F E)
@@ -128,7 +129,9 @@ Definition edges_ok (c : case) : bool :=
              edge_in E p q && edge_in E q r && edge_in E r p &&
              negb (p =? q) && negb (q =? r) && negb (r =? p)) (c_faces c) &&
   forallb (fun cl : cell => let l := cell_list cl in
-             forallb (fun x => forallb (fun y => (x =? y) || edge_in E x y) l) l) (c_cells c).
+             forallb (fun x => forallb (fun y => (x =? y) || edge_in E x y) l) l) (c_cells c) &&
+  (* the decidable hypotheses of C08_sym_rowsum_tetra and C08_mass_edges hold on this mesh *)
+  cell_adjacency_ok (c_cells c) && edge_cover_ok (c_faces c) E.
 
 (* binary64 run: relative/absolute tolerance 1e-9, or equal (infinities of 1/0) *)
 Definition fclose2 (a b : float) : bool := fclose tol9 a b || PrimFloat.eqb a b.
